@@ -283,6 +283,34 @@ Theorem pop_size_and_indices_from : forall c inp fuel st st' G,
 Proof. exact pop_size_and_indices_from_lemma. Qed.
 Print Assumptions pop_size_and_indices_from.
 
+(* How much the shared memory receives: one turn stores [stored_per_turn] transitions ((iterations - (n_step - 1)) x
+   num_envs off-policy, episode_steps for the bandits, nothing in the on-policy / offline loops), and when a call
+   returns after G generations the memory has received G x population x stored_per_turn — whatever the learn
+   schedule, the selection outcomes and the hyper-parameters were. *)
+Theorem rollout_stores : forall c h m,
+  (lp c = Bandit -> nstep c = 0) ->
+  added (fst (rollout c h m)) = added m + stored_per_turn c.
+Proof. exact rollout_stores_lemma. Qed.
+Print Assumptions rollout_stores.
+
+Theorem memory_fill : forall c inp fuel st st' G,
+  (lp c = Bandit -> nstep c = 0) -> 1 <= tour_pop c -> length (pop st) = tour_pop c ->
+  run fuel c st inp 0 = Some (st', G) ->
+  added (memo st') = added (memo st) + G * (tour_pop c * stored_per_turn c).
+Proof. exact memory_fill_lemma. Qed.
+Print Assumptions memory_fill.
+
+(* train_bandits with tournament + mutation evolves when member 0 crosses a multiple of evo_steps: after G generations
+   of S steps exactly min(G, G*S // evo_steps) evolutions happened (at most one per generation). *)
+Theorem bandit_evolution_count : forall c S0 inp pop0 fuel st' G,
+  lp c = Bandit -> evolve c = true -> target c = None -> 0 < evo_steps c -> 1 <= tour_pop c ->
+  length pop0 = tour_pop c -> Forall (fun a => cur a = 0) pop0 ->
+  stream_ok (hp_steps c S0) (tour_pop c) inp ->
+  run fuel c (init_state pop0) inp 0 = Some (st', G) ->
+  evo_count st' = Nat.min G (G * S0 / evo_steps c).
+Proof. exact bandit_evolution_count_lemma. Qed.
+Print Assumptions bandit_evolution_count.
+
 (* ---- non-vacuity: concrete runs of the model ---- *)
 Definition cfg_off : cfg :=
   {| lp := Off; num_envs := 2; evo_steps := 9; max_steps := 20; episode_steps := 0; delay := 0; mem_cap := 16;
@@ -383,3 +411,13 @@ Example permuted_indices_example :
   map idx (pop (fst (gen c (init_state [fresh_agent 1; fresh_agent 3; fresh_agent 0; fresh_agent 2])
                      {| g_hps := []; g_fit := [0; 1; 0; 0]%Q; g_parents := [1; 0; 2; 3] |}))) = [3; 4; 5; 6].
 Proof. vm_compute. reflexivity. Qed.
+
+(* bandits, 4 steps per generation, evo_steps 6, budget 17: 5 generations, evolutions after generations 2, 3 and 5
+   (member 0 at 8, 12, 20 crosses 6, 12, 18): min(5, 20 // 6) = 3; the memory received 5 x 2 x 4 = 40 contexts *)
+Example bandit_evolution_example :
+  let c := {| lp := Bandit; num_envs := 1; evo_steps := 6; max_steps := 17; episode_steps := 4; delay := 0; mem_cap := 64;
+              nstep := 0; checkpoint := 0; evolve := true; elitism := true; tour_pop := 2; eval_loop := 1; target := None |} in
+  exists st, run 30 c (init_state [fresh_agent 0; fresh_agent 1])
+               (fun _ => {| g_hps := [{| ls := 1; bs := 2 |}; {| ls := 1; bs := 2 |}]; g_fit := [1; 0]%Q; g_parents := [0; 1] |}) 0
+             = Some (st, 5) /\ evo_count st = 3 /\ added (memo st) = 40.
+Proof. eexists. vm_compute. repeat split. Qed.
